@@ -65,6 +65,10 @@ class ObjectiveProxy:
         self._last_hv = (x, v, r)
         return r
 
+    def hessian(self, x):
+        self._log.append(("hessian", _key(x), onp.array(x)))
+        return self._real.hessian(x)
+
     def update_precond(self, x):
         self._log.append(("update_precond", id(self._real.p)))
         return self._real.update_precond(x)
